@@ -122,4 +122,32 @@ theorem decodeRaw_split (p : Params) (bs : Bytes) (hwf : WFBytes bs) (u : Update
           subst h
           exact ⟨rfl, rfl, rfl⟩
 
+theorem mem_mpAnnounces (as : List Attr) (x : Nat × Nat × Bytes × Nlri) :
+    x ∈ mpAnnounces as ↔
+      ∃ a ∈ as, ∃ afi safi nh ns, a.val = .mpReach afi safi nh ns ∧ ∃ n ∈ ns, x = (afi, safi, nhAddr safi nh, n) := by
+  induction as with
+  | nil => simp [mpAnnounces]
+  | cons a t ih =>
+    simp only [mpAnnounces, List.mem_append, ih, List.mem_cons, exists_eq_or_imp]
+    apply or_congr_left
+    cases hv : a.val <;> simp
+    case mpReach afi safi nh ns =>
+      constructor
+      · rintro ⟨n, hn, rfl⟩; exact ⟨n, hn, rfl⟩
+      · rintro ⟨n, hn, rfl⟩; exact ⟨n, hn, rfl⟩
+
+theorem mem_mpWithdraws (as : List Attr) (x : Nat × Nat × Nlri) :
+    x ∈ mpWithdraws as ↔
+      ∃ a ∈ as, ∃ afi safi ns, a.val = .mpUnreach afi safi ns ∧ ∃ n ∈ ns, x = (afi, safi, eraseLabels n) := by
+  induction as with
+  | nil => simp [mpWithdraws]
+  | cons a t ih =>
+    simp only [mpWithdraws, List.mem_append, ih, List.mem_cons, exists_eq_or_imp]
+    apply or_congr_left
+    cases hv : a.val <;> simp
+    case mpUnreach afi safi ns =>
+      constructor
+      · rintro ⟨n, hn, rfl⟩; exact ⟨n, hn, rfl⟩
+      · rintro ⟨n, hn, rfl⟩; exact ⟨n, hn, rfl⟩
+
 end Exa.Wire
